@@ -7,16 +7,26 @@ ENGINE_ENV = ['harness/common/scripted.cpp', 'env/stats_stub.cpp', 'env/uuid_stu
 H = {}
 
 H['engine'] = dict(
-    props=['C02'], dir='harness/engine',
+    props=['C02', 'C05', 'C06'], dir='harness/engine',
     oomd=ENGINE_OOMD, cxx=['h_engine.cpp', 'env/fs_unreachable.cpp'] + ENGINE_ENV, c=['main_engine.c'],
     defs={'VSTL_STR_CAP': 8, 'VSTL_VEC_MAX': 4, 'VSTL_MAP_MAX': 4, 'VF_CFG_N': 12},
     unwind=9, timeout=900,
     functions=['Oomd::Engine::Engine::', 'Oomd::Engine::Ruleset::', 'Oomd::Engine::DetectorGroup::', 'Oomd::OomdContext::'],
     variants={
         'quick': [
-                  dict(name='t2r1', defs={'H_T': 2, 'H_MAXR': 1, 'H_MAXG': 2, 'H_MAXD': 2, 'H_MAXA': 2}),
-],
-        'thorough': [dict(name='t3', defs={'H_T': 3, 'H_MAXR': 2, 'H_MAXG': 2, 'H_MAXD': 2, 'H_MAXA': 3}, timeout=2400)],
+            dict(name='t2r1', defs={'H_T': 2, 'H_MAXR': 1, 'H_MAXG': 2, 'H_MAXD': 2, 'H_MAXA': 2}, props=['C02', 'C06']),
+            dict(name='t1r2', defs={'H_T': 1, 'H_MAXR': 2, 'H_MAXG': 2, 'H_MAXD': 2, 'H_MAXA': 2}, props=['C02'], reach_optional=True),
+            dict(name='t3r1s', defs={'H_T': 3, 'H_MAXR': 1, 'H_MAXG': 1, 'H_MAXD': 1, 'H_MAXA': 2}, props=['C06', 'C05']),
+            dict(name='ov_t3r1', defs={'H_T': 3, 'H_MAXR': 1, 'H_MAXG': 1, 'H_MAXD': 1, 'H_MAXA': 2, 'FEAT_OVERRIDE': 1}, props=['C05']),
+            dict(name='ov_t2r2', defs={'H_T': 2, 'H_MAXR': 2, 'H_MAXG': 1, 'H_MAXD': 1, 'H_MAXA': 1, 'FEAT_OVERRIDE': 1}, props=['C05']),
+        ],
+        'thorough': [
+            dict(name='t3r1', defs={'H_T': 3, 'H_MAXR': 1, 'H_MAXG': 2, 'H_MAXD': 2, 'H_MAXA': 3}, timeout=3000, props=['C02', 'C06']),
+            dict(name='t2r2', defs={'H_T': 2, 'H_MAXR': 2, 'H_MAXG': 2, 'H_MAXD': 2, 'H_MAXA': 2}, timeout=3000, props=['C02', 'C06']),
+            dict(name='t4r1s', defs={'H_T': 4, 'H_MAXR': 1, 'H_MAXG': 1, 'H_MAXD': 1, 'H_MAXA': 2}, timeout=3000, props=['C06', 'C05']),
+            dict(name='ov_t4r1', defs={'H_T': 4, 'H_MAXR': 1, 'H_MAXG': 1, 'H_MAXD': 1, 'H_MAXA': 2, 'FEAT_OVERRIDE': 1}, timeout=3000, props=['C05']),
+            dict(name='ov_t3r2', defs={'H_T': 3, 'H_MAXR': 2, 'H_MAXG': 1, 'H_MAXD': 1, 'H_MAXA': 2, 'FEAT_OVERRIDE': 1}, timeout=3000, props=['C05']),
+        ],
     },
 )
 
@@ -27,8 +37,10 @@ H['rcg'] = dict(
     unwind=9, timeout=900,
     functions=['Oomd::Engine::Ruleset::', 'Oomd::Engine::DetectorGroup::', 'Oomd::OomdContext::', 'Oomd::CgroupPath::'],
     variants={
-        'quick': [dict(name='t2c2', defs={'H_T': 2, 'H_NC': 2, 'H_D': 1, 'H_A': 1})],
-        'thorough': [dict(name='t3c2', defs={'H_T': 3, 'H_NC': 2, 'H_D': 1, 'H_A': 2}, timeout=2400)],
+        'quick': [dict(name='t2c2_live%02d' % m, defs={'H_T': 2, 'H_NC': 2, 'H_D': 1, 'H_A': 1, 'H_LIVE': m, 'H_FILTER': 0}, reach_optional=True) for m in range(1, 16)]
+                 + [dict(name='t2c2_tag%02d' % m, defs={'H_T': 2, 'H_NC': 2, 'H_D': 1, 'H_A': 1, 'H_LIVE': m, 'H_FILTER': 1}, reach_optional=True) for m in (6, 9, 13)],
+        'thorough': [dict(name='t3c2_live%02d' % m, defs={'H_T': 3, 'H_NC': 2, 'H_D': 1, 'H_A': 2, 'H_LIVE': m, 'H_FILTER': 0}, reach_optional=True, timeout=3000) for m in range(1, 64)]
+                    + [dict(name='t3c2_tag%02d' % m, defs={'H_T': 3, 'H_NC': 2, 'H_D': 1, 'H_A': 2, 'H_LIVE': m, 'H_FILTER': 1}, reach_optional=True, timeout=3000) for m in (21, 42, 27, 45, 51)],
     },
 )
 
@@ -41,6 +53,58 @@ H['parsesize'] = dict(
     variants={
         'quick': [dict(name='size_l%d' % l, defs={'H_LEN': l, 'H_MODE': 0}) for l in (1, 2, 3)] + [dict(name='pct_l%d' % l, defs={'H_LEN': l, 'H_MODE': 1}) for l in (2, 3)],
         'thorough': [dict(name='size_l%d' % l, defs={'H_LEN': l, 'H_MODE': 0}, timeout=2400) for l in (1, 2, 3, 4, 5)] + [dict(name='pct_l%d' % l, defs={'H_LEN': l, 'H_MODE': 1}, timeout=2400) for l in (2, 3, 4)],
+    },
+)
+
+H['dropin'] = dict(
+    props=['C13'], dir='harness/dropin',
+    oomd=ENGINE_OOMD + ['config/ConfigCompiler.cpp', 'dropin/DropInServiceAdaptor.cpp'], cxx=['h_dropin.cpp', 'env/fs_unreachable.cpp'] + ENGINE_ENV, c=['main_dropin.c'],
+    defs={'VSTL_STR_CAP': 8, 'VSTL_VEC_MAX': 4, 'VSTL_MAP_MAX': 4, 'VF_ACT_ADV_MAX_S': 0, 'VF_RET_MAX': 1},
+    unwind=9, timeout=1200,
+    functions=['Oomd::Engine::Engine::', 'Oomd::Engine::Ruleset::mergeWithDropIn', 'Oomd::Engine::Ruleset::markDropIn', 'Oomd::Config2::compile', 'Oomd::DropInServiceAdaptor::', 'compileRuleset'],
+    variants={
+        'quick': [dict(name='k2', defs={'H_K': 2, 'H_MAXTARGET': 3, 'H_HOOKS': 0}, reach_optional=True), dict(name='k2hooks', defs={'H_K': 2, 'H_MAXTARGET': 2, 'H_HOOKS': 1}, reach_optional=True)],
+        'thorough': [dict(name='k3', defs={'H_K': 3, 'H_MAXTARGET': 4, 'H_HOOKS': 1}, timeout=3000)],
+    },
+)
+
+NOREG = ['-include', 'noreg.h']
+DET_NAMES = {1: 'pressure_above', 2: 'pressure_rising_beyond', 3: 'memory_above', 4: 'memory_reclaim', 5: 'swap_free', 6: 'exists', 7: 'nr_dying_descendants'}
+H['detect'] = dict(
+    props=['C08'], dir='harness/detect',
+    oomd=[('plugins/PressureAbove.cpp', NOREG), ('plugins/PressureRisingBeyond.cpp', NOREG), ('plugins/MemoryAbove.cpp', NOREG), ('plugins/MemoryReclaim.cpp', NOREG),
+          ('plugins/SwapFree.cpp', NOREG), ('plugins/Exists.cpp', NOREG), ('plugins/NrDyingDescendants.cpp', NOREG),
+          'util/Util.cpp', 'OomdContext.cpp', 'include/CgroupPath.cpp', 'util/PluginArgParser.cpp', 'PluginRegistry.cpp', 'PluginConstructionContext.cpp', 'CgroupContext.cpp'],
+    cxx=['h_detect.cpp', 'env/world.cpp'], c=['main_detect.c'],
+    defs={'VSTL_STR_CAP': 8, 'VSTL_VEC_MAX': 4, 'VSTL_MAP_MAX': 4, 'VFW_MAXN': 3, 'VF_CFG_N': 8},
+    unwind=9, timeout=1200,
+    functions=['Oomd::PressureAbove::run', 'Oomd::PressureRisingBeyond::run', 'Oomd::MemoryAbove::run', 'Oomd::MemoryReclaim::run', 'Oomd::SwapFree::run', 'Oomd::Exists::run', 'Oomd::NrDyingDescendants::run', 'Oomd::OomdContext::', 'Oomd::CgroupContext::'],
+    variants={
+        'quick': [dict(name='%s_t%d_p%d' % (DET_NAMES[d], 1 if d >= 5 else 3, pt), defs={'H_DET': d, 'H_T': 1 if d >= 5 else 3, 'H_PAT': pt}, reach_optional=True) for d in range(1, 8) for pt in ((1,) if d == 5 else (1, 2))],
+        'thorough': [dict(name='%s_t%d_p%d' % (DET_NAMES[d], 2 if d >= 5 else 4, pt), defs={'H_DET': d, 'H_T': 2 if d >= 5 else 4, 'H_PAT': pt, 'H_SWAPBITS': 36}, reach_optional=True, timeout=3000) for d in range(1, 8) for pt in ((1,) if d == 5 else (0, 1, 2))],
+    },
+)
+
+def _path_variants(lens, len2s, timeout):
+    out = []
+    for law in (1, 2, 3, 4, 5, 6):
+        for l in lens:
+            for l2 in (len2s if law in (2, 3, 4, 5) else (0,)):
+                if law == 6 and l == 0:
+                    continue
+                out.append(dict(name='law%d_l%d_%d' % (law, l, l2), defs={'H_LAW': law, 'H_LEN': l, 'H_LEN2': l2}, reach_optional=True, timeout=timeout))
+    return out
+
+
+H['path'] = dict(
+    props=['C16'], dir='harness/path',
+    oomd=['include/CgroupPath.cpp', 'util/Util.cpp', 'util/PluginArgParser.cpp', 'PluginConstructionContext.cpp'], cxx=['h_path.cpp'], c=['main_path.c'],
+    defs={'VSTL_STR_CAP': 12, 'VSTL_VEC_MAX': 6, 'VSTL_MAP_MAX': 6},
+    unwind=13, timeout=600,
+    functions=['Oomd::CgroupPath::', 'Oomd::Util::split', 'Oomd::PluginArgParser::parseCgroup', 'std::hash<Oomd::CgroupPath>'],
+    variants={
+        'quick': _path_variants((0, 1, 2, 3), (1, 2), 600),
+        'thorough': _path_variants((0, 1, 2, 3, 4, 5), (1, 2, 3), 3000),
     },
 )
 
